@@ -53,6 +53,30 @@ func (s *SwappableDB) Swap(path string, fkConstraints, walEnabled bool) error {
 		return fmt.Errorf("invalid SQLite data")
 	}
 
+	// The header alone says little about the rest of the file. Have SQLite open and
+	// check the new file before the existing database is closed and removed, because
+	// there is no way back after that.
+	if err := func() error {
+		ndb, err := OpenWithDriver(s.drv, path, fkConstraints, walEnabled)
+		if err != nil {
+			return err
+		}
+		res, err := ndb.VerifyIntegrity()
+		if cerr := ndb.Close(); err == nil {
+			err = cerr
+		}
+		if err == nil && !res.OK {
+			err = fmt.Errorf("%s", res.Issues[0])
+		}
+		if err != nil {
+			return err
+		}
+		return RemoveWALFiles(path)
+	}(); err != nil {
+		RemoveWALFiles(path)
+		return fmt.Errorf("invalid SQLite data: %s", err)
+	}
+
 	s.dbMu.Lock()
 	defer s.dbMu.Unlock()
 	if err := s.db.Close(); err != nil {
